@@ -29,7 +29,10 @@ type Lambda struct {
 func (lam *Lambda) Call(s *Scope, args List, depth int) (result Object) {
 	ss := s.NewScope()
 	if lam.Closure != nil {
-		ss.parents = append(ss.parents, lam.Closure)
+		// The bindings the lambda was created in come before those of the
+		// caller, otherwise a caller's variable of the same name is seen
+		// and assigned instead of the closed over one.
+		ss.parents = []*Scope{lam.Closure, s}
 		ss.Macro = lam.Closure.Macro
 	} else if s.Keep { // flavors instance uses this
 		ss.parents = append(ss.parents, s)
